@@ -608,7 +608,8 @@ class OSFS(FS):
     def gettype(self, path):
         # type: (Text) -> ResourceType
         self.check()
-        sys_path = self._to_sys_path(path)
+        _path = self.validatepath(path)
+        sys_path = self._to_sys_path(_path)
         with convert_os_errors("gettype", path):
             stat = os.stat(sys_path)
         resource_type = self._get_type_from_stat(stat)
